@@ -806,6 +806,71 @@ func c20HookSelection(c *Ctx, r *R) {
 	kid := eng.PMethod("KeyID", eng.PParam("signer"))
 	eq := eng.RelEdges(fn, token.EQL, func(v ssa.Value) bool { n, _, ok := eng.FieldLoad(v); return ok && n == "KeyID" }, kid)
 	r.Check(len(eq) > 0, "principal-by-signer-key", fn.Pos(), "the principal is the one owning the signer's key id", "the selected principal is not determined by matching the signer's key id")
+	// the principal whose ID() filters the hooks is assigned only on the matching edge, and is one of
+	// the policy's principals; a nil (no match) selection is refused before any hook is selected
+	var selected ssa.Value
+	for _, b := range fn.Blocks {
+		for _, in := range b.Instrs {
+			ci, ok := in.(ssa.CallInstruction)
+			if !ok {
+				continue
+			}
+			k := Call{Fn: fn, Instr: ci, Callee: eng.CalleeOf(ci)}
+			if k.Method() == "Has" && eng.PMethod("GetPrincipalIDs", nil)(derefVal(k.Recv())) {
+				if ik, _, ok := eng.RootCall(eng.Strip(k.Arg(0))); ok && ik.Method() == "ID" {
+					selected = ik.Recv()
+				}
+			}
+		}
+	}
+	if selected == nil {
+		r.Bad("selected-on-match-edge", fn.Pos(), "cannot identify the principal whose ID() filters the hooks")
+	} else {
+		bad := ""
+		n := 0
+		for _, a := range eng.Assignments(selected) {
+			if eng.IsNilConst(a.Val) {
+				continue
+			}
+			n++
+			dom := false
+			for _, e := range eq {
+				if a.At != nil && (eng.EdgeDominates(e, a.At) || e.To() == a.At) {
+					dom = true
+				}
+			}
+			if !dom {
+				bad = "the selected principal is assigned on a path that does not pass the `key.KeyID == signer key id` test"
+			}
+			fromPolicy := false
+			for _, root := range eng.Roots(a.Val) {
+				eng.WalkOperands(root, 6, func(v ssa.Value) {
+					if ck, _, ok := eng.RootCall(v); ok && ck.Method() == "GetAllPrincipals" {
+						fromPolicy = true
+					}
+				})
+			}
+			if !fromPolicy {
+				bad = "the selected principal is not an element of state.GetAllPrincipals()"
+			}
+		}
+		r.Check(bad == "" && n > 0, "selected-on-match-edge", fn.Pos(), "the principal used to filter hooks is assigned only where its key id equals the signer's, from the policy's principals", orStr(bad, "no assignment of the selected principal found"))
+		nilEdges := eng.RelEdges(fn, token.EQL, func(v ssa.Value) bool { return sameWeb(v, selected) }, eng.PNil())
+		okNil := len(nilEdges) > 0
+		for _, e := range nilEdges {
+			if pth := eng.LeadsOnlyToErr(e, "ErrPrincipalNotFound"); pth != nil {
+				okNil = false
+			}
+		}
+		if okNil && len(sel) == 1 {
+			var pass []eng.Edge
+			for _, e := range nilEdges {
+				pass = append(pass, eng.Edge{From: e.From, Idx: 1 - e.Idx})
+			}
+			okNil = eng.FindPathFromEntry(fn, isInstr(sel[0].Instr), eng.NewCut().AddEdges(pass...)) == nil
+		}
+		r.Check(okNil, "no-match-refused-first", fn.Pos(), "selectedPrincipal == nil → ErrPrincipalNotFound before any hook is selected", "the `no principal matched` case does not return ErrPrincipalNotFound before hooks are selected (polarity or placement of the nil test changed)")
+	}
 	all := false
 	for _, k := range eng.Calls(fn, false) {
 		if k.Method() == "GetAllPrincipals" {
